@@ -95,11 +95,13 @@ def position (p : UInt8 → Bool) : Bytes → Option Nat
   | [] => none
   | b :: bs => if p b then some 0 else match position p bs with | none => none | some i => some (i + 1)
 
-/-- `bytes().rposition(p)` -/
-def rposition (p : UInt8 → Bool) (d : Bytes) : Option Nat :=
-  match position p d.reverse with
-  | none => none
-  | some i => some (d.length - 1 - i)
+/-- `bytes().rposition(p)`: index of the last byte that satisfies `p` -/
+def rposition (p : UInt8 → Bool) : Bytes → Option Nat
+  | [] => none
+  | b :: bs =>
+    match rposition p bs with
+    | some i => some (i + 1)
+    | none => if p b then some 0 else none
 
 /-- `s.starts_with` of a two-byte ASCII pattern -/
 def startsWith2 (d : Bytes) (x y : Nat) : Bool :=
